@@ -332,14 +332,15 @@ LongUserSet ==
 \* hashes are taken under different keys, so there is no session
 LongCredSet ==
   { LET s == SetToSuite(q)
-        SB == Scn(15000 + q + Seed, s[1], s[2], 1, 4, 20, TRUE, 4, TRUE)
+        SB == Scn(15000 + q + Seed, s[1], s[2], 1, 4, base, TRUE, 4, TRUE)
         S == IF kind = "pw" THEN [SB EXCEPT !.pw = @ \o [i \in 1..extra |-> (i * 7 + q) % 256]] ELSE [SB EXCEPT !.kg = @ \o [i \in 1..extra |-> (i * 5 + q) % 256]] IN
-    ScriptOf("longcred-" \o ToString(q) \o "-" \o kind \o "-" \o ToString(extra), "longcred", S,
+    ScriptOf("longcred-" \o ToString(q) \o "-" \o kind \o "-" \o ToString(base) \o "+" \o ToString(extra), "longcred", S,
              IF kind = "pw"
              THEN << NewSessionCall(S, ExpErr(S, "ErrIncorrectPassword")), HonestOsr(SB), HonestRakp2(SB), ExpectSession(SB) >>
              ELSE << NewSessionCall(S, ExpErr(S, "error")), HonestOsr(SB), HonestRakp2(SB), HonestRakp4(SB), ExpectSession(SB) >>,
              [mut |-> IF kind = "pw" THEN "wrongPw" ELSE "wrongKg"])
-    : q \in 1..9, kind \in {"pw", "kg"}, extra \in {1, 4, 12, 44} }
+    \* (16 bytes was the password field of IPMI v1.5; v2.0 allows 20: the first 16 / 20 bytes equal the BMC's)
+    : q \in 1..9, kind \in {"pw", "kg"}, base \in {16, 20}, extra \in {1, 4, 12, 44} }
 Scripts == CASE Family = "honest" -> HonestSet \cup NoneSet \cup DefaultSet
              [] Family = "longuser" -> LongUserSet
              [] Family = "rekey" -> RekeySet \cup LongCredSet \cup FleetSet
